@@ -19,7 +19,7 @@ LEVEL = "exploration"
 RULE = ("exportable recipes (integers through names/FormatField/BytesInteger, floats, bytes, the four string macros, flags, enums (keyword, enum-class and mixed label sources), FlagsEnum, structs, "
         "sequences, arrays with constant and context counts, ranges, RepeatUntil, Prefixed/PrefixedArray/PascalString, Padded/Padding/FixedSized, "
         "NullTerminated/NullStripped (consume=False also where parse does not give back the built value), conditionals with negations inside operators, bit structs, "
-        "pointers, constants behind wrapping sub-constructs, string fields under every spelling of the encoding, one Enum object shared by formats exported one after the other; depth<=3) x canonical encodings of generated values. "
+        "pointers, constants behind wrapping sub-constructs, string fields under every spelling of the encoding, one Enum object shared by formats exported one after the other, repeat-until predicates over element fields whose names contain the placeholder's text; depth<=3) x canonical encodings of generated values. "
         "non-trivial = construct with a nested type or a dependent size/count/condition; distinct by (recipe shape)")
 ASSUMPTIONS = ["ruamel.yaml is not installed: a stub serializer captures the exported dict (only the YAML rendering is out of reach)",
                "dialect leniencies of the KSY interpreter: Python-spelled expressions over lexically chained scopes; 'u1be'; seq attributes typed by an `instances` entry"]
